@@ -1,5 +1,6 @@
 import RedisVerif.Props.C03
 import RedisVerif.Lemmas.Shards7
+import RedisVerif.Model.Dispatch
 
 /-!
 # C03 over the M7 reference executor — the locality assumption discharged, with time
@@ -288,6 +289,43 @@ theorem C03_statement_m7_counterexample : ¬ C03_statement_m7 := by
   have := h routes7 routes7_valid (by decide) badRun7 (by decide)
   revert this
   decide
+
+
+/-! ## whichever entry point carries the request
+
+  `Shards.EntryPoint` = the `pub fn`s of `ShardedActorState` through which a client request reaches a shard
+  mailbox, `Shards.dispatch` = which of them the connection handler calls for which frames; both
+  tables are compared with the ones derived from the source on every run (`ENTRYPOINTS`, `DISPATCH`). -/
+
+section dispatch
+variable {S : Sig} {E : Exec S}
+
+/-- every entry point sends the request for key `k` to the home of `k` -/
+theorem entry_routes_home (R : Routes) (e : EntryPoint) (k : Key) (v : Bytes) (op : S.Op) :
+    cmdShard R true (e.cmd (S := S) k v op) = R.bytes k ∧ SingleKey (e.cmd (S := S) k v op) = true ∧
+    cmdKey (e.cmd (S := S) k v op) = k := by
+  cases e <;> exact ⟨rfl, rfl, rfl⟩
+
+/-- … hence so does the connection handler, whatever frame class it recognised -/
+theorem dispatch_routes_home (R : Routes) (f : FrameClass) (k : Key) (v : Bytes) (op : S.Op) :
+    cmdShard R true ((dispatch f).cmd (S := S) k v op) = R.bytes k :=
+  (entry_routes_home R (dispatch f) k v op).1
+
+/-- every entry point is in the table the connection handler dispatches into or is driven directly
+    (`fast_get` / `fast_set` have no caller in the connection handler: public API only) -/
+theorem dispatch_targets_are_entries : ∀ f, dispatch f ∈ EntryPoint.all := by
+  intro f; cases f <;> decide
+
+/-- **whichever entry point carries it**, a request for key `k` does to the union of the shards what
+    one executor does to one store, and answers the same -/
+theorem entry_refines (hL : E.Local) (R : Routes) (hv : R.Valid) (hN : 0 < R.N) {st : Shards S.Val}
+    (h : Inv R st) (e : EntryPoint) (k : Key) (v : Bytes) (op : S.Op) :
+    Inv R (execN E R true st (e.cmd k v op)).1 ∧
+    abs (execN E R true st (e.cmd k v op)).1 = (E.exec (abs st) (e.cmd k v op)).1 ∧
+    replyEqv (execN E R true st (e.cmd k v op)).2 (E.exec (abs st) (e.cmd k v op)).2 = true :=
+  shards_refine_single hL R true hv hN (consistent_fixed R) h (e.cmd k v op) (by cases e <;> rfl)
+
+end dispatch
 
 end C03
 end RedisVerif
